@@ -259,7 +259,7 @@ def b_sum(it, x, start=0):
             tot = it.binop(ast.Add(), tot, v)
         return tot
     n = it.seq_len(seq)
-    s = sums.make_sum(lambda k: it.seq_elem(seq, k), 0, n)
+    s = it.make_sum(lambda k: it.seq_elem(seq, k), 0, n)
     it.facts.append(to_z3num(n) >= 0)
     return s if (isinstance(start, int) and start == 0) else it.binop(ast.Add(), start, s)
 
@@ -285,12 +285,7 @@ def _sym_sum_gen(it, g, seq, start):
         cnd = conj(*conds)
         return ite(cnd, to_real(v), z3.RealVal(0))
 
-    save = it.definedness
-    it.definedness = False
-    try:
-        s = sums.make_sum(summand, 0, n)
-    finally:
-        it.definedness = save
+    s = it.make_sum(summand, 0, n)
     return s if (isinstance(start, int) and start == 0) else it.binop(ast.Add(), start, s)
 
 
@@ -731,12 +726,7 @@ def _range_sum(it, f, n):
             tot = it.binop(ast.Add(), tot, f(i))
         return tot
     it.facts.append(to_z3num(n) >= 0)
-    save = it.definedness
-    it.definedness = False
-    try:
-        return sums.make_sum(lambda k: f(k), 0, n)
-    finally:
-        it.definedness = save
+    return it.make_sum(lambda k: f(k), 0, n)
 
 
 def np_divide(it, a, b, out=None, where=True):
@@ -1046,10 +1036,13 @@ def spec_implies(it, node, env):
     if isinstance(a, (ForallV, ExistsV)):
         raise Unsupported("quantified antecedent")
     it.pc.append(a)
+    n_pc = len(it.pc)
     try:
         b = it.truth(it.eval(node.args[1], env))
+    except Infeasible:
+        b = True  # the antecedent cannot hold on this path
     finally:
-        it.pc.pop()
+        del it.pc[n_pc - 1:]
     if isinstance(b, ForallV):
         return ForallV(b.n, lambda k, a=a, b=b: disj(neg(a), core.to_bool(b.body(k))))
     if isinstance(b, bool):
